@@ -159,7 +159,7 @@ class MessageAny(TlbScheme):
         builder = Builder().store_cell(self.info.serialize())
         if self.init:
             builder.store_bit(1)  # maybe true
-            if len(self.init.serialize().bits) <= (builder.available_bits - 2) and len(self.init.serialize().refs) <= builder.available_refs:
+            if len(self.init.serialize().bits) <= (builder.available_bits - 2) and len(self.init.serialize().refs) < builder.available_refs:  # keep one reference for the body
                 builder.store_bit(0)  # Either left
                 builder.store_cell(self.init.serialize())
             else:
